@@ -636,6 +636,10 @@ func runOnce(c Case, deadline time.Duration, rec bool) (fail, miss *evid.Failure
 	// anything that still trickles out (second replies, replies for someone else)
 	tap.Quiesce(evid.Pick(2*time.Millisecond, 4*time.Millisecond), 200*time.Millisecond)
 	f, _ := judge(tap.Trace(), sents)
+	if rec && len(sents) > 1 {
+		// an evaluation is one injected request (the Spec / sweep wrapper counts one per case)
+		evid.Eval(int64(len(sents) - 1))
+	}
 	if f == nil && rec {
 		for _, s := range sents {
 			if s.r.Kind == "echo" && s.answered && len(s.payload) >= 1 {
